@@ -569,17 +569,19 @@ def replay_create(rep, lines):
     return n
 
 
-def replay_str(rep, lines, regexes, texts, nonstr, tier):
+def replay_str(rep, jobs, regexes, texts, nonstr, tier):
+    """jobs: (emitted line of one regex, j0, j1) -- the slice of the texts to run"""
     n = 0
     pytexts = [txt(t) for t in texts]
-    for ln in lines:
+    for ln, j0, j1 in jobs:
         ri = ln["i"]
         term = regexes[ri - 1]
         pattern = re_pattern(term)
         T = {1: jtyping.NotEmptyStr, 2: jtyping.Email}.get(ri) or build_str_type(pattern)
         parser = make_parser(T)
         cre = _re.compile(pattern)
-        for j, s in enumerate(pytexts):
+        for j in range(j0, j1):
+            s = pytexts[j]
             chans = ["direct"]
             if (ri + j) % (3 if tier == "quick" else 1) == 0:
                 chans += ["object", "cli"]
@@ -607,7 +609,7 @@ def replay_str(rep, lines, regexes, texts, nonstr, tier):
                         rep.violation(f"str:{chan}:re{ri}:{s!r}:not-idempotent", f"{T.__name__}: the accepted value of {s!r} is not a fixed point / not an instance", case)
                 if ri == 2 and j == 7 and chan == "direct":
                     rep.sample({"part": "str", **case})
-        for j, c in enumerate(nonstr):
+        for j, c in enumerate(nonstr if j0 == 0 else []):
             for chan in ("direct", "object") if c["k"] != "none" else ("direct",):
                 ob = run_channel(T, str, parser, chan, gamma_cand(c))
                 n += 1
@@ -1030,6 +1032,31 @@ def run(rep, tier, rnd, scratch):
     if set(by_part) != set(hdr["counts"]) or mc.distinct < total:
         machinery_failure(PID, f"emitted parts {sorted(by_part)} / distinct states {mc.distinct} < cases {total}")
     rep.extra["model_cases"] = hdr["counts"]
+    # non-vacuity, measured from what TLC printed (-coverage runs out of memory on this module): the statement of the
+    # Alg layer that decided each case, the outcome classes, the named deviations and the resolver tags that occurred
+    from collections import Counter
+    nv = {"alg_branch": Counter(), "parse_branch": Counter(), "num_outcome": Counter(), "str_accepts": Counter(), "loader_kinds": Counter(),
+          "reg_alg_by_type": Counter(), "reg_deviation": Counter(), "resolver_tags_dumper/loader": Counter()}
+    for ln in by_part["num"] + by_part["named"]:
+        nv["alg_branch"].update(ln["br"])
+        nv["parse_branch"].update(ln["pbr"])
+        nv["num_outcome"].update(x["k"] for x in ln["ref"])
+    for ln in by_part["str"]:
+        nv["str_accepts"].update("accept" if a else "reject" for a in ln["acc"])
+        nv["loader_kinds"].update(ln["ld"])
+        nv["parse_branch"].update(ln["pbr"])
+    for ln in by_part["reg"]:
+        for ci, ch in enumerate(CHANNELS):
+            nv["reg_alg_by_type"][f"{ln['ty']}:{ch}:{ln['alg'][ci]}"] += 1
+            nv["reg_deviation"][ln["dev"][ci]] += 1
+        if ln["ty"] == "Path":
+            nv["resolver_tags_dumper/loader"]["/".join(ln["tags"])] += 1
+    rep.extra["non_vacuity"] = {k: dict(sorted(v.items())) for k, v in nv.items()}
+    expected_branches = {"160-bool", "162-not-integer", "164-cast-ValueError", "164-cast-TypeError", "164-cast-OverflowError", "166-restriction", "94-accepted"}
+    if not expected_branches <= set(nv["alg_branch"]) or not {"563-loader-crash", "582-first-attempt", "590-second-attempt", "596-rejected", "596-rejected-not-text", "escapes-OverflowError"} <= set(nv["parse_branch"]):
+        machinery_failure(PID, f"vacuity: Alg branches exercised by the instance: {sorted(nv['alg_branch'])} / {sorted(nv['parse_branch'])}")
+    if not {"float-serializer", "yaml-str-as-float", "loader-crash", "none"} <= set(nv["reg_deviation"]):
+        machinery_failure(PID, f"vacuity: deviations in the instance: {sorted(nv['reg_deviation'])}")
     if cov:
         rep.extra["tlc_coverage"] = {k: v for k, v in mc.coverage.items()}
 
@@ -1037,7 +1064,10 @@ def run(rep, tier, rnd, scratch):
     # the loader assumption of the spec (LdOf) against the real loader
     for c, ld in zip(hdr["cands"], hdr["ld"]):
         if c["k"] == "str" and loaded_kind(txt(c["t"])) != ld:
-            machinery_failure(PID, f"loader assumption of MC_Restricted is wrong for {txt(c['t'])!r}: spec {ld}, load_value {loaded_kind(txt(c['t']))}")
+            if ld == "crash":  # the named deviation is gone (e.g. repaired): the Alg layer is stale, not the property violated
+                rep.add_drift(f"LoaderCrash predicts that load_value raises on {txt(c['t'])!r}; the real loader returns ({loaded_kind(txt(c['t']))})", {"text": txt(c["t"])})
+            else:
+                machinery_failure(PID, f"loader assumption of MC_Restricted is wrong for {txt(c['t'])!r}: spec {ld}, load_value {loaded_kind(txt(c['t']))}")
 
     # ---------------------------------------------------------------- REPLAY
     bind_named(by_part["named"])
@@ -1046,7 +1076,9 @@ def run(rep, tier, rnd, scratch):
     phases["replay_num"] = tm.s()
     n_named = replay_num(rep, by_part["named"], hdr["cands"], hdr["ld"], tier, named)
     n_create = replay_create(rep, by_part["create"])
-    n_str = pooled(rep, replay_str, by_part["str"], (hdr["regexes"], hdr["strtexts"], hdr["nonstr"], tier), chunk=1)
+    nt = len(hdr["strtexts"])
+    str_jobs = [(ln, j0, min(nt, j0 + 1500)) for ln in by_part["str"] for j0 in range(0, nt, 1500)]
+    n_str = pooled(rep, replay_str, str_jobs, (hdr["regexes"], hdr["strtexts"], hdr["nonstr"], tier), chunk=1)
     phases["replay_str"] = tm.s()
     n_reg = pooled(rep, replay_reg, by_part["reg"], (tier,), chunk=200)
     phases["replay_reg"] = tm.s()
